@@ -87,6 +87,10 @@ func (x *Exec) doCall(st *State, fr *Frame, ci *ssa.Call) bool {
 			fr.vals[ci] = m
 			return true
 		}
+		if effectFree(name) {
+			x.pureOpaque(st, fr, ci, name)
+			return true
+		}
 		x.opaqueCall(st, fr, ci, name)
 		return true
 	}
@@ -187,7 +191,9 @@ func (x *Exec) pureOpaque(st *State, fr *Frame, ci *ssa.Call, name string) {
 	if strings.HasPrefix(name, "github.com/scionproto/scion/pkg/private/serrors.New") ||
 		strings.HasPrefix(name, "github.com/scionproto/scion/pkg/private/serrors.Join") ||
 		strings.HasPrefix(name, "github.com/scionproto/scion/pkg/private/serrors.Wrap") ||
-		name == "errors.New" || name == "fmt.Errorf" {
+		name == "errors.New" || name == "fmt.Errorf" ||
+		name == "github.com/scionproto/scion/pkg/log.FromCtx" || name == "github.com/scionproto/scion/pkg/log.New" ||
+		name == "github.com/scionproto/scion/pkg/log.Root" {
 		if len(r.l) == 2 {
 			st.assume(Neq(r.l[0], mkBV(0, 32)))
 		}
